@@ -165,6 +165,43 @@ func init() {
 		return p
 	})
 
+	RegisterIntrinsic("io.ReadAll", func(x *Exec, s *State, c *CallCtx) Value {
+		sv, ok := x.readAllFrom(s, c.Args[0])
+		if !ok {
+			x.fail("io.ReadAll on a reader the engine cannot see through: %s", x.showVal(c.Args[0]))
+		}
+		return &TupleVal{E: []Value{x.strToBytes(s, sv), nilErr(x)}}
+	})
+	// helpers for Go-written models that must work on slices of any element type
+	RegisterIntrinsic(VrfPkg+".LenOf", func(x *Exec, s *State, c *CallCtx) Value {
+		iv := c.Args[0].(*IfaceVal)
+		for _, a := range iv.Alts {
+			if a.T != nil {
+				return a.V.(*SliceVal).Len
+			}
+		}
+		return x.tb.Int64(0)
+	})
+	RegisterIntrinsic(VrfPkg+".SwapElems", func(x *Exec, s *State, c *CallCtx) Value {
+		iv := c.Args[0].(*IfaceVal)
+		i, j := c.Args[1].(*Term), c.Args[2].(*Term)
+		for _, a := range iv.Alts {
+			if a.T == nil {
+				continue
+			}
+			sl := a.V.(*SliceVal)
+			pi, ok1 := x.indexAddr(s, sl, i)
+			pj, ok2 := x.indexAddr(s, sl, j)
+			if !ok1 || !ok2 {
+				return nil
+			}
+			vi, _ := x.load(s, pi.(*PtrVal), nil)
+			vj, _ := x.load(s, pj.(*PtrVal), nil)
+			x.store(s, pi.(*PtrVal), vj)
+			x.store(s, pj.(*PtrVal), vi)
+		}
+		return nil
+	})
 	// net.ParseIP: uninterpreted function of its argument; only nil-ness of the result is modelled
 	RegisterIntrinsic("net.ParseIP", func(x *Exec, s *State, c *CallCtx) Value {
 		arg := c.Args[0].(*StrVal)
@@ -196,6 +233,47 @@ func init() {
 		nonNil := &SliceVal{Ptr: x.ptrTo(id, 0), Len: x.i64(16), Cap: x.i64(16)}
 		return x.ite(b, nonNil, x.zero(c.RT))
 	})
+}
+
+// readAllFrom implements io.ReadAll for the reader shapes that occur: *zzvrf.ByteSource,
+// *bytes.Reader, and io.NopCloser wrappers around them.
+func (x *Exec) readAllFrom(s *State, v Value) (*StrVal, bool) {
+	iv, ok := v.(*IfaceVal)
+	if !ok {
+		return nil, false
+	}
+	var live []IfaceAlt
+	for _, a := range iv.Alts {
+		if a.T != nil && !a.G.IsFalse() {
+			live = append(live, a)
+		}
+	}
+	if len(live) != 1 {
+		return nil, false
+	}
+	a := live[0]
+	name := a.T.String()
+	switch {
+	case name == "io.nopCloser" || name == "io.nopCloserWriterTo":
+		return x.readAllFrom(s, a.V.(*StructVal).F[0])
+	case name == "*bytes.Reader" || name == "*"+VrfPkg+".ByteSource":
+		p := a.V.(*PtrVal)
+		fa, _ := x.fieldAddr(s, p, 0)
+		dv, _ := x.load(s, fa.(*PtrVal), nil)
+		pa, _ := x.fieldAddr(s, p, 1)
+		pv, _ := x.load(s, pa.(*PtrVal), nil)
+		data := x.bytesToStr(s, dv)
+		pos := pv.(*Term)
+		if data.LenOnly {
+			// nothing of a length-only buffer has been consumed by the harness readers
+			x.store(s, pa.(*PtrVal), data.Len)
+			return data, true
+		}
+		rest := x.strSlice(data, x.tb.Ite(x.tb.ULe(pos, data.Len), pos, data.Len), data.Len)
+		x.store(s, pa.(*PtrVal), data.Len)
+		return rest, true
+	}
+	return nil, false
 }
 
 // ufBool returns the value of an uninterpreted boolean function applied to a string, adding the
